@@ -63,12 +63,12 @@ theorem k8s_shapes_recognised (k v : Bytes) (lease : Int) (exp : Nat) :
 /-- ... and on any backend state with a consistent index record for the key they are answered with
 the projection etcd prescribes on the abstracted state: success flag, revision of the write, the
 key-values of the reads — create; update and guarded delete with a correct / stale / zero expectation
-(not above `dealt + 1`); the unguarded delete of an existing or a missing key. -/
+(not above `dealt`, the revision of the abstracted etcd state: an expectation equal to the revision about to be dealt is refused as drift); the unguarded delete of an existing or a missing key. -/
 theorem k8s_shapes_accepted (c : Cfg) (s : BState) (m : Mvcc) (k v : Bytes) (lease : Int) (exp : Nat)
     (hk : k ≠ []) (hw : WHyp c s k) (ha : AbsAt c s m k) :
     Agree c s m (k8sCreate k v lease) ∧
-    (exp ≤ s.dealt + 1 → Agree c s m (k8sUpdate k v exp lease)) ∧
-    (0 < exp → exp ≤ s.dealt + 1 → Agree c s m (k8sDelete k exp)) ∧
+    (exp ≤ s.dealt → Agree c s m (k8sUpdate k v exp lease)) ∧
+    (0 < exp → exp ≤ s.dealt → Agree c s m (k8sDelete k exp)) ∧
     Agree c s m (k8sDeleteUnguarded k) := by
   refine ⟨?_, ?_, ?_, ?_⟩
   · exact sound_create c s m _ { key := k, val := v, lease := lease } ⟨rfl, rfl, rfl, rfl, rfl⟩
@@ -80,6 +80,32 @@ theorem k8s_shapes_accepted (c : Cfg) (s : BState) (m : Mvcc) (k v : Bytes) (lea
     exact sound_gdelete_in c s m _ { key := k } { key := k } exp ⟨rfl, rfl, rfl, rfl, rfl⟩ (by omega) (by omega)
       hk rfl (plainGet_of_key k) hw ha
   · exact sound_udelete c s m { key := k } { key := k } hk rfl (plainGet_of_key k) hw ha
+
+/-- The bound `exp ≤ dealt` of `k8s_shapes_accepted` is tight: an expectation equal to the revision
+about to be dealt (`dealt + 1`; backend.go `deal`: `rev <= prevRevision`) is refused with the drift error —
+the write would overwrite the very version it names. (etcd fails such a compare: nobody has written that
+revision; `shim_sound` allows the refusal.) A guarded delete so, when the key exists. -/
+theorem boundary_expectation_refused (c : Cfg) (s : BState) (k v : Bytes) (lease : Int)
+    (h63 : s.dealt + 1 < 2 ^ 63) :
+    (shimTxn c s (k8sUpdate k v (s.dealt + 1) lease)).1 = .error (.backend .drift) ∧
+    (curKv c s k ≠ none → (shimTxn c s (k8sDelete k (s.dealt + 1))).1 = .error (.backend .drift)) := by
+  have hfar : s.dealt + 1 ≤ toU64 (((s.dealt + 1 : Nat)) : Int) :=
+    toU64_far (dealt := s.dealt) (by omega) (by omega) h63 (.inr (by omega))
+  constructor
+  · have hcl := (k8s_shapes_recognised k v lease (s.dealt + 1)).2.1
+    unfold shimTxn
+    rw [hcl]
+    simp only
+    rw [shimUpdate_fst, doUpdate_drift c s k v _ hfar]
+  · intro hcur
+    have hcl := (k8s_shapes_recognised k v lease (s.dealt + 1)).2.2.1 (by omega)
+    unfold shimTxn
+    rw [hcl]
+    simp only
+    rw [shimDelete_fst, doDelete_far c s k _ hfar]
+    cases hk : curKv c s k with
+    | none => exact absurd hk hcur
+    | some _ => rfl
 
 /-! ### the full statement for transactions -/
 
@@ -133,11 +159,11 @@ theorem shim_sound (c : Cfg) (s : BState) (m : Mvcc) (t : TxnReq) (hreq : ReqOK 
   · exact .inl ⟨_, by rw [(refused_unchanged c s _).2 p (classify_create hc) hf]⟩
   · exact canonical_sound c s m t h hreq.ints h63 (hw _) (ha _)
 
-/-- The well-shaped transactions with an expectation in `0 .. dealt+1` are not merely "refused or
+/-- The well-shaped transactions with an expectation in `0 .. dealt` are not merely "refused or
 right": they are answered, and right (hypotheses only at the key of the transaction). -/
 theorem shim_sound_canonical (c : Cfg) (s : BState) (m : Mvcc) (t : TxnReq) (hcan : Canonical t)
     (hw : WHyp c s (opKey t)) (ha : AbsAt c s m (opKey t))
-    (hexp : ∀ cm ∈ t.compare, 0 ≤ cm.int ∧ cm.int ≤ s.dealt + 1) :
+    (hexp : ∀ cm ∈ t.compare, 0 ≤ cm.int ∧ cm.int ≤ s.dealt) :
     Agree c s m t := by
   cases hcan with
   | create cm p hc hp => exact sound_create c s m cm p hc hp hw ha
